@@ -2,6 +2,7 @@ package main
 
 import (
 	"fmt"
+	"go/types"
 	"sort"
 	"strings"
 
@@ -133,6 +134,25 @@ func checkOneKey(c *Ctx, rule string) {
 			c.Undecided(rule, a.name+":hook wiring", "", fmt.Sprintf("Authorize wired to %d function(s), ResolveRoute to %d", len(authImpls), len(resImpls)))
 			continue
 		}
+		// the path→route table: the struct-field map the wired resolver looks its argument up in (found by use, not by name)
+		tableField := ""
+		for _, impl := range resImpls {
+			for _, b := range impl.Blocks {
+				for _, ins := range b.Instrs {
+					if lk, ok := ins.(*ssa.Lookup); ok {
+						if _, f, ok := fieldOfLoad(lk.X); ok && tableField == "" {
+							if mt, ok := lk.X.Type().Underlying().(*types.Map); ok && isStringT(mt.Key()) && isStringT(mt.Elem()) {
+								tableField = f
+							}
+						}
+					}
+				}
+			}
+		}
+		if tableField == "" {
+			c.Undecided(rule, a.name+":path→route table", "", "the wired resolver does not look its argument up in a map[string]string field")
+			continue
+		}
 		// entries: functions of the API package that (transitively, within the package) call both hooks
 		n := 0
 		for _, entry := range p.FuncsInPkg(a.pkg) {
@@ -159,7 +179,7 @@ func checkOneKey(c *Ctx, rule string) {
 			var kAuth, kRes []string
 			for _, at := range auths {
 				for _, impl := range authImpls {
-					lks := lookupKeyTerms(p, impl, "pathToRoute")
+					lks := lookupKeyTerms(p, impl, tableField)
 					for _, lk := range lks {
 						// the implementation's parameter that receives the hook argument: the hook argument index maps to
 						// impl parameter index (+1 for the bound receiver)
@@ -173,7 +193,7 @@ func checkOneKey(c *Ctx, rule string) {
 			}
 			for _, rt := range ress {
 				for _, impl := range resImpls {
-					lks := lookupKeyTerms(p, impl, "pathToRoute")
+					lks := lookupKeyTerms(p, impl, tableField)
 					if len(lks) == 0 {
 						kRes = append(kRes, "?no-lookup-in-"+impl.Name())
 					}
